@@ -178,6 +178,9 @@ def config(draw, allow_adaptive=True):
         'num_procs': draw(st.integers(1, 3)), 'jac': draw(st.booleans()), 'predict': draw(st.sampled_from([None, 'fine_only', 'pfasst_burnin'])) if levels == 2 else None,
         'log_solution': draw(st.booleans()), 'log_work': draw(st.booleans()),
     }  # fmt: skip
+    if draw(st.integers(0, 3)) == 0:
+        cfg['e_tol'] = draw(st.sampled_from([1e-5, 1e-7]))
+        cfg['maxiter'] = draw(st.integers(5, 8))
     if allow_adaptive and draw(st.integers(0, 3)) == 0:
         cfg['adaptivity'] = draw(st.sampled_from([1e-3, 1e-5]))
         cfg['levels'] = 1
